@@ -560,7 +560,34 @@ func runC06paths(r resIface, cfg *c06cfg, rng *prng.R, scratch string, idx int) 
 				}
 				pw.Write(streamBytes(cmds))
 				want := c06expect(ks, cfg, "incr")
-				waitUntil(5*time.Second, func() bool { return len(targetSet(srv)) >= len(want) })
+				// script commands the reference expects at the target (they may trail the last key)
+				wantScript := 0
+				{
+					cur, ref := -1, cfg.ref()
+					for _, c := range cmds {
+						n := strings.ToLower(c.Name)
+						if n == "select" {
+							cur, _ = strconv.Atoi(string(c.Args[0]))
+						}
+						if (n == "eval" || n == "evalsha" || n == "script") && !cfg.Lua && !ref.DBExcluded(cur) {
+							wantScript++
+						}
+					}
+				}
+				scriptsSeen := func() int {
+					k := 0
+					srv.Mu.Lock()
+					for _, l := range srv.Log {
+						if l.Name == "eval" || l.Name == "evalsha" || l.Name == "script" {
+							k++
+						}
+					}
+					srv.Mu.Unlock()
+					return k
+				}
+				// "missing" is only concluded after a generous wait (a loaded machine delays the last ticker flush); the
+				// extra flush period afterwards is for what should not arrive at all
+				waitUntil(15*time.Second, func() bool { return len(targetSet(srv)) >= len(want) && scriptsSeen() >= wantScript })
 				time.Sleep(600 * time.Millisecond) // one more flush-ticker period: anything wrongly forwarded shows up
 				o := incrOut{got: targetSet(srv), multi: multiKeyCmds}
 				srv.Mu.Lock()
@@ -573,17 +600,7 @@ func runC06paths(r resIface, cfg *c06cfg, rng *prng.R, scratch string, idx int) 
 					}
 				}
 				srv.Mu.Unlock()
-				cur = -1
-				ref := cfg.ref()
-				for _, c := range cmds {
-					n := strings.ToLower(c.Name)
-					if n == "select" {
-						cur, _ = strconv.Atoi(string(c.Args[0]))
-					}
-					if (n == "eval" || n == "evalsha" || n == "script") && !cfg.Lua && !ref.DBExcluded(cur) {
-						o.wantScript++
-					}
-				}
+				o.wantScript = wantScript
 				outs[oi] = o
 			}(oi, od, orng)
 		}
